@@ -61,7 +61,7 @@ func RunAll(scs []*Scenario, workers int) []*Result {
 // Validate hands the recorded traces to TLC (Server_Trace.tla, permissive
 // specification) and returns the rejections by trace id. nil, false = machinery problem.
 func Validate(c *core.Ctx, results []*Result, label string) (map[int]Rejection, bool) {
-	const chunk = 4000
+	const chunk = 2500
 	rej := map[int]Rejection{}
 	var mu sync.Mutex
 	ok := true
